@@ -166,6 +166,9 @@ func (e *Env) Addr(symbol string) (reflect.Value, error) {
 	defer e.rwMutex.RUnlock()
 
 	if v, ok := e.values[symbol]; ok {
+		if isSharedNil(v) {
+			return reflect.New(v.Type()), nil
+		}
 		if v.CanAddr() {
 			return v.Addr(), nil
 		}
@@ -174,6 +177,9 @@ func (e *Env) Addr(symbol string) (reflect.Value, error) {
 	if e.externalLookup != nil {
 		v, err := e.externalLookup.Get(symbol)
 		if err == nil {
+			if isSharedNil(v) {
+				return reflect.New(v.Type()), nil
+			}
 			if v.CanAddr() {
 				return v.Addr(), nil
 			}
@@ -184,4 +190,11 @@ func (e *Env) Addr(symbol string) (reflect.Value, error) {
 		return NilValue, fmt.Errorf("undefined symbol '%s'", symbol)
 	}
 	return e.parent.Addr(symbol)
+}
+
+// isSharedNil reports whether v is NilValue itself: the one cell every nil binding
+// of every environment shares. Its address is never handed out (a store through it
+// would change nil for the whole process); Addr answers a pointer to a nil of its own.
+func isSharedNil(v reflect.Value) bool {
+	return v.Kind() == reflect.Interface && v.CanAddr() && v.Addr().Pointer() == NilValue.Addr().Pointer()
 }
